@@ -518,7 +518,37 @@ func (in *Interp) indexAddr(x, idx Value) Value {
 
 // ---- maps ----
 
+// rm resolves a map of frozen package-init state to this path's private copy, if the path has
+// written to it (copy-on-write: the shared original is never modified).
+func (in *Interp) rm(m *MapVal) *MapVal {
+	if m != nil && m.Frozen {
+		if c, ok := in.mapCOW[m]; ok {
+			return c
+		}
+	}
+	return m
+}
+
+// wm returns the map to WRITE: for a frozen map, the path's private copy (made on first write).
+func (in *Interp) wm(m *MapVal) *MapVal {
+	if m == nil || !m.Frozen {
+		return m
+	}
+	if c, ok := in.mapCOW[m]; ok {
+		return c
+	}
+	c := &MapVal{KT: m.KT, VT: m.VT, Shared: m.Shared}
+	c.E = make([]mapEntry, len(m.E))
+	copy(c.E, m.E) // keys and values stay shared and frozen; entries are replaced, never mutated in place
+	if in.mapCOW == nil {
+		in.mapCOW = map[*MapVal]*MapVal{}
+	}
+	in.mapCOW[m] = c
+	return c
+}
+
 func (in *Interp) mapFind(m *MapVal, k Value) int {
+	m = in.rm(m)
 	if m == nil {
 		return -1
 	}
@@ -536,6 +566,7 @@ func (in *Interp) mapFind(m *MapVal, k Value) int {
 func (in *Interp) lookup(x, k Value, ins *ssa.Lookup) Value {
 	switch m := x.(type) {
 	case *MapVal:
+		m = in.rm(m)
 		i := in.mapFind(m, k)
 		var v Value
 		if i >= 0 {
@@ -560,9 +591,7 @@ func (in *Interp) mapUpdate(m *MapVal, k, v Value) {
 	if m == nil {
 		panic(goPanic{msg: "assignment to entry in nil map"})
 	}
-	if m.Frozen {
-		in.fail("unsupported", "write to a map of package-init state shared across paths (run with nocache)")
-	}
+	m = in.wm(m)
 	if m.Shared {
 		in.recordAccess(m, true)
 	}
@@ -575,9 +604,7 @@ func (in *Interp) mapUpdate(m *MapVal, k, v Value) {
 }
 
 func (in *Interp) mapDelete(m *MapVal, k Value) {
-	if m != nil && m.Frozen {
-		in.fail("unsupported", "delete from a map of package-init state shared across paths (run with nocache)")
-	}
+	m = in.wm(m)
 	i := in.mapFind(m, k)
 	if i >= 0 {
 		m.E = append(m.E[:i:i], m.E[i+1:]...)
@@ -587,6 +614,7 @@ func (in *Interp) mapDelete(m *MapVal, k Value) {
 func (in *Interp) makeIter(x Value) Value {
 	switch m := x.(type) {
 	case *MapVal:
+		m = in.rm(m)
 		it := &MapIter{}
 		if m != nil && m.Shared {
 			in.recordAccess(m, false)
@@ -730,6 +758,7 @@ func (in *Interp) builtin(b *ssa.Builtin, args []Value, cc *ssa.CallCommon) Valu
 			}
 			return f.Int(int64(x.Len))
 		case *MapVal:
+			x = in.rm(x)
 			if x == nil {
 				return f.Int(0)
 			}
